@@ -32,7 +32,12 @@ impl CliArgs {
     }
 
     pub fn create_interpreter(&self) -> Interpreter {
-        let mut interpreter = Interpreter::default();
+        self.configure_interpreter(Interpreter::default())
+    }
+
+    /// Applies the command-line options to the given interpreter. Used for
+    /// the interpreter we start with as well as for one built from a source file.
+    pub fn configure_interpreter(&self, mut interpreter: Interpreter) -> Interpreter {
         interpreter.enable_warnings = self.warnings;
         interpreter.enable_tracing = self.tracing;
 
